@@ -444,11 +444,16 @@ def h_result_role():
             list(vm.iterate(vm.call(vm._getattr(me, "_evaluate__"), [make_dict([])], {"parent": parent})))
             ctx.check("Variable._evaluate__::a-predicate-result-is-a-condition-below-a-logical-operator-and-a-value-as-an-operand",
                       z3.BoolVal(seen == [want]), detail=f"below {pname}: is_condition={seen}")
-        me = vm.alloc(Var, {"_id_": 5, "_type_": UserFn("pred", ["a"]), "_domain_": PyList([]), "_eval_parent_": None, "_should_be_instantiated_": True, "_is_false_": False}, tag="predicate-variable")
-        me.fields["_conditions_root_"] = me
-        del seen[:]
-        list(vm.iterate(vm.call(vm._getattr(me, "_evaluate__"), [make_dict([])], {"parent": vm.alloc(cls(vm, SYM, "Entity"), {"_id_": 11}, tag="descriptor")})))
-        ctx.check("Variable._evaluate__::a-predicate-that-is-the-whole-condition-is-a-condition", z3.BoolVal(seen == [True]), detail=repr(seen))
+        # the whole condition of a (possibly nested: the outermost conditions root is another node) query / a selected expression
+        for dname in ("Entity", "SetOf"):
+            for position, want in (("condition", True), ("selected", False)):
+                me = vm.alloc(Var, {"_id_": 5, "_type_": UserFn("pred", ["a"]), "_domain_": PyList([]), "_eval_parent_": None, "_should_be_instantiated_": True, "_is_false_": False,
+                                    "_conditions_root_": root}, tag="predicate-variable")
+                desc = vm.alloc(cls(vm, SYM, dname), {"_id_": 11, "_child_": me if position == "condition" else root}, tag="descriptor")
+                del seen[:]
+                list(vm.iterate(vm.call(vm._getattr(me, "_evaluate__"), [make_dict([])], {"parent": desc})))
+                ctx.check("Variable._evaluate__::a-predicate-that-is-the-whole-condition-is-a-condition" if want else
+                          "Variable._evaluate__::a-predicate-result-that-is-selected-is-a-value", z3.BoolVal(seen == [want]), detail=f"{position} of {dname}: is_condition={seen}")
         del vm.spec.stubs["Variable._instantiate_using_child_vars_and_yield_results_"]
         # the flag of the result
         for is_condition in (True, False):
